@@ -40,11 +40,12 @@ C04M = 'Bashlex.Props.C04'
 T_C04T = [('Bashlex.C04.' + t, 'Bashlex.Props.C04Total') for t in ['tokText', 'C04_prov_total', 'C04_leaf_text_total', 'C04_spine_operator_total', 'C04_spine_pipe_total', 'C04_partial_total', 'C04_total_conditional', 'C04_total_spine_conditional']] + [('Bashlex.C04.TTP.scanHyp', 'Bashlex.Props.C04.TokTextProof'), ('Bashlex.C04.tokText_of', 'Bashlex.Props.C04.TokTextProof')]
 T_C04 = [('Bashlex.C04.' + t, C04M) for t in ['C04_partial', 'C04_partial_conditional', 'C04_partial_spine', 'C04_prov', 'C04_prov_single', 'C04_leaf_text', 'C04_operator', 'C04_pipe', 'C04_redirect', 'C04_word_span',
          'C04_spine_leaf_text', 'C04_spine_operator', 'C04_spine_pipe', 'value_slice', 'dollar_text', 'Src.slice_eq', 'textOK_origin', 'keepsEol_action', 'parserRun_C04', 'sat_action']]
-reg('C04', 'propchecks.treespec', 'proof', T_C04T + T_C04 + T1, [ASCII, DEPTH, CORR,
+T_C04W = [('Bashlex.C04.' + t, 'Bashlex.Props.C04Words') for t in ['parse_W', 'C04_word_starts', 'C04_word_ends', 'C04_word_whole_plain', 'C04_words_single', "C04_total_conditional'", "unlinked_of_unlinked'"]] + [('Bashlex.C04.' + t, 'Bashlex.Props.C04.WordBounds') for t in ['tokWB', 'tokStartsOK', 'tokEndsOK', 'tokWhole_plain']]
+reg('C04', 'propchecks.treespec', 'proof', T_C04W + T_C04T + T_C04 + T1, [ASCII, DEPTH, CORR,
     'tokText (Props/C04/TokTextProof.lean): the token-text hypothesis is PROVED for the real tokenizer (all of _readtoken, _readtokenword, _parse_matched_pair, _parse_comsub; ghost-text invariant through every buffer append), for the corrected relation '
     'textRel sl v r = "the value followed by the residue is the text under the span with some backslash-newline pairs deleted" (the first formulation, validated by #eval only, was found false on rare inputs by the proof attempt: an escaped backslash directly before a real '
     'continuation); residues = the recorded defects D31, D32, D31+D32 and NEWLINE over here-document bodies. C04_prov_total, C04_leaf_text_total, C04_spine_operator_total, C04_spine_pipe_total, C04_partial_total are unconditional; C04_total_conditional has RootEnds as its only hypothesis. '
-    'Outside the theorem (the Unlinked disjunct) and decided per input: the word clauses of textOK (whole word, cut short, starts late), adjacency of fd and operator, the span of a here-document redirect'])
+    'Word clauses (Props/C04Words.lean, Props/C04/WB*.lean): tokWB - the cursor-at-token-boundary invariant through nextToken, gatherheredocuments and every action - is proved for the real tokenizer; on the spine (nodes outside words), unconditionally: C04_word_starts (the character before a word is a break character, or the dash of <<- / <&- / >&-, or the word starts a later part), C04_word_ends (the character after it is a break character or the end; exclusion D31+D32), C04_word_whole_plain (a word without quoting characters is one whole shell word). Still outside (Unlinked-prime) and decided per input: word-not-whole for words with quoting characters, the word clauses below words, adjacency of fd and operator, the span of a here-document redirect'])
 C05M = 'Bashlex.Props.C05'
 C05G = 'Bashlex.Props.C05.Gaps'
 T_C05 = [('Bashlex.C05.' + t, C05M) for t in ['C05_partial', 'C05_partial_parts', 'C05_partial_single', 'fcovers_strict', 'leaves_resolve', 'act_leaves', 'leaves_hooks', 'parserRun_leaves']] + \
